@@ -178,16 +178,25 @@ fn run_mrt(case: &Val) -> Val {
         let t1 = now_secs();
         // The timestamp is wall-clock time: checked against the call window here,
         // then blanked so that observations are reproducible.
-        if buf.len() >= pos + 4 {
-            let ts = u32::from_be_bytes([buf[pos], buf[pos + 1], buf[pos + 2], buf[pos + 3]]);
+        // walk the records this call appended (12-byte header, length at +8)
+        let mut p = pos;
+        if p == buf.len() {
+            ts_ok = false;
+        }
+        while p < buf.len() {
+            if p + 12 > buf.len() {
+                ts_ok = false;
+                break;
+            }
+            let ts = u32::from_be_bytes([buf[p], buf[p + 1], buf[p + 2], buf[p + 3]]);
             if ts < t0 || ts > t1 {
                 ts_ok = false;
             }
             for k in 0..4 {
-                buf[pos + k] = 0;
+                buf[p + k] = 0;
             }
-        } else {
-            ts_ok = false;
+            let l = u32::from_be_bytes([buf[p + 8], buf[p + 9], buf[p + 10], buf[p + 11]]) as usize;
+            p += 12 + l;
         }
         blobs.push(blobs_val(&[blob]));
     }
